@@ -3,3 +3,4 @@ import CvProps.C02
 import CvProps.C03
 import CvProps.C09
 import CvProps.C17
+import CvProps.C04
